@@ -172,13 +172,13 @@ Definition impl_pow (x : val) (n : Z) : outcome :=
 Definition impl_powf_head (x : val) (y : f64) : outcome :=
   match x with
   | VInt z | VByte z => LibmPow (of_Z z) y
-  | VBig z => LibmPow (of_Z (wrap_i32 z)) y            (* f64::from(*i128 as i32) *)
+  | VBig z => LibmPow (of_Z (wrap_i32 z)) y            (* f64::from of the value cast with `as i32` *)
   | VFloat f => LibmPow f y
   | _ => Panic
   end.
 Definition impl_powf (x : val) (y : f64) : outcome :=
   match x with
-  | VInt z | VByte z | VBig z => LibmPow (of_Z z) y     (* repaired: *i128 as f64 *)
+  | VInt z | VByte z | VBig z => LibmPow (of_Z z) y     (* repaired: cast with `as f64` *)
   | VFloat f => LibmPow f y
   | _ => Panic
   end.
